@@ -28,11 +28,12 @@ def _opt_default(t):
     return None
 
 
-@rule('VC-ACCESS', {
+@rule('VC-ACCESS', floor=7, **read_attribution({
     'C10': 'missing actors count as 0; merge/lub and from_iter go through into_iter/apply; dot(actor) pairs the actor with its own counter',
     'C20': 'every "drop the element when its witness clock is empty" decision calls VClock::is_empty; clocks built by from_iter / From<Dot> must be the canonical ones apply builds (no zero entries), or equal knowledge stops meaning equal clocks',
     'C11': 'GCounter::read sums the dots that VClock::iter yields',
-}, floor=7, inst_filter={'C20': lambda i: i in ('is_empty', 'from_iter', 'from-dot', 'floor', 'anchor', 'internal'), 'C11': lambda i: i in ('iter', 'get', 'floor', 'anchor', 'internal')})
+}, module='vclock', own_filter={'C20': lambda i: i in ('is_empty', 'from_iter', 'from-dot', 'floor', 'anchor', 'internal'),
+                                'C11': lambda i: i in ('iter', 'get', 'floor', 'anchor', 'internal')}))
 def vc_access(ctx):
     """VClock::get = stored counter or 0; is_empty = no entry; dot(a) = Dot{a, get(a)}; iter / into_iter yield every
     entry as Dot{actor, counter}; from_iter / From<Dot> apply every given dot to an empty clock."""
@@ -163,9 +164,9 @@ def vc_access(ctx):
         ctx.check(ok, 'from-dot', fb, 'the clock holding exactly the given dot', 'VClock::from(dot) is %s, expected an empty clock with the dot applied' % fmt(r, 5))
 
 
-@rule('READ-PLAIN', {
+@rule('READ-PLAIN', floor=7, **read_attribution({
     'C11': 'MaxReg/MinReg read the retained extreme, GSet reads the union it accumulated; a write op carries the value itself',
-}, floor=7)
+}, module=None))
 def read_plain(ctx):
     """MaxReg/MinReg::read return self.val and ::write(v) is v; GSet::read returns self.value, contains(x) asks self.value,
     insert(x) inserts x."""
@@ -198,9 +199,9 @@ def read_plain(ctx):
     ctx.check(bool(good) and rc.must_pass(good), 'GSet::insert', body, 'element inserted into value', 'GSet::insert does not insert the element into self.value on every path')
 
 
-@rule('LIST-READ', {
+@rule('LIST-READ', floor=6, **read_attribution({
     'C12': 'every replica shows the elements in the one order of their identifiers: reads walk the whole identifier-ordered map',
-}, floor=6)
+}, module=None, default='list'))
 def list_read(ctx):
     """List::read / read_into / iter / iter_entries range over all of self.seq in map (identifier) order."""
     facts = ctx.facts
@@ -394,12 +395,14 @@ def type_impls(ctx):
     'C09': 'every merge / deferral / validation decision written with `>=`, `<=`, `<`, `>` runs these operators',
     'C04': 'merge drops or keeps members by `other.clock >= clock`',
     'C05': 'same for Map entries',
-    'C14': 'Identifier order must be one total order whichever operator is used',
+    'C14': 'Identifier order must be one total order whichever operator is used; its markers are OrdDots',
+    'C12': 'List elements are ordered by identifiers whose sibling markers are OrdDots: every replica must sort them alike',
     'C06': 'MVReg::apply and MVReg::merge keep or evict values by `>` / `<` on their clocks',
     'C08': 'the decision to remember an overtaking remove compares clocks',
     'C02': 'merge decisions on both sides must use one and the same order',
     'C03': 'same decisions as op delivery',
-}, floor=4, inst_filter={'C14': lambda i: i.startswith('identifier') or i in ('floor', 'anchor', 'internal'),
+}, floor=4, inst_filter={'C14': lambda i: i.startswith(('identifier', 'dot::OrdDot')) or i in ('floor', 'anchor', 'internal'),
+                         'C12': lambda i: i.startswith(('identifier', 'dot::OrdDot')) or i in ('floor', 'anchor', 'internal'),
                          'C06': lambda i: i.startswith('vclock') or i in ('floor', 'anchor', 'internal'),
                          'C08': lambda i: i.startswith('vclock') or i in ('floor', 'anchor', 'internal'),
                          'C04': lambda i: i.startswith('vclock') or i in ('floor', 'anchor', 'internal'),
@@ -461,6 +464,19 @@ def cmp_provided(ctx):
                     if not hasattr(ctx, '_ord_tables'):
                         ctx._ord_tables = {}
                     ctx._ord_tables[im['self_key']] = table
+                # Ord and PartialOrd of one type must be one order (`<` uses partial_cmp, sorted containers use cmp): the
+                # partner impl is either hand-written too (its table) or derived (lexicographic in declaration order)
+                partner = 'PartialOrd' if tr == 'Ord' else 'Ord'
+                pim = [i for i in facts.impls if i.get('self_key') == im['self_key'] and (i.get('trait') or '').split('::')[-1] == partner]
+                if pim and pim[0].get('derived'):
+                    decl = {c: next((o for o in c if o != EQ), EQ) for c in table}
+                    ctx.check(table == decl, inst + '/agrees-with-derived-' + partner, b,
+                              'same order as the derived %s (declaration order of the fields)' % partner,
+                              'the hand-written %s of %s and its derived %s disagree: `<`/`>` and sorted containers order the same two '
+                              'values differently' % (mname, short, partner), fnkey=im['self_key'])
+                elif pim and mname == 'partial_cmp' and whole is not None:
+                    ctx.check(table == whole, inst + '/agrees-with-Ord', b, 'same order as the hand-written Ord',
+                              'the hand-written partial_cmp and cmp of %s disagree' % short, fnkey=im['self_key'])
                 ctx.check(lex_ok and len(flds) <= 4, inst + '/' + mname, b, 'a lexicographic order over every field (%s)' % ', '.join(flds),
                           'the hand-written %s of %s is not a lexicographic comparison over all of its fields: two different values can '
                           'compare Equal, or the order is not total' % (mname, short), fnkey=im['self_key'])
